@@ -273,6 +273,12 @@ def w_e2e(job):
                         if exp is not None and (len(calls) != 1 or calls[0].Function != f"@probe->int`{show(want[1])}"):
                             kind = "probe-selects-other-overload"
                             detail = f"call instruction names {[c.Function for c in calls]}"
+                        elif calls and calls[0].Arguments and isinstance(calls[0].Arguments[0], IR.BinaryInstruction) and len(calls[0].Arguments[0].Values) == 2 and (
+                                (ir_type(calls[0].Arguments[0].Values[0].Type), ir_type(calls[0].Arguments[0].Values[1].Type)) not in ((want[2], want[3]), (want[3], want[2]) if op == "*" else (want[2], want[3]))):
+                            # the operands are converted wherever the expression stands - also as the argument of a call
+                            kind = "wrong-operand-conversion-in-call-argument"
+                            o_ = calls[0].Arguments[0].Values
+                            detail = f"operation operands have IR types ({show(ir_type(o_[0].Type))}, {show(ir_type(o_[1].Type))})"
                         else:
                             # dynamic: the overload that runs (a failing run is C05's business, not judged here)
                             try:
